@@ -41,6 +41,45 @@ def Exprs.length : Exprs → Nat
   | .nil => 0
   | .cons _ es => es.length + 1
 
+mutual
+def Expr.size : Expr → Nat
+  | .str _ => 1
+  | .var _ => 1
+  | .backtick _ => 1
+  | .call _ args => args.size + 1
+  | .concat l r => l.size + r.size + 1
+  | .joinL l r => l.size + r.size + 1
+  | .joinR r => r.size + 1
+  | .and l r => l.size + r.size + 1
+  | .or l r => l.size + r.size + 1
+  | .cond a _ b t e => a.size + b.size + t.size + e.size + 1
+  | .assert a _ b m => a.size + b.size + m.size + 1
+  | .group e => e.size + 1
+def Exprs.size : Exprs → Nat
+  | .nil => 0
+  | .cons e es => e.size + es.size + 1
+end
+
+mutual
+/-- the variable names occurring anywhere in `e` -/
+def Expr.vars : Expr → List String
+  | .str _ => []
+  | .var x => [x]
+  | .backtick _ => []
+  | .call _ args => args.vars
+  | .concat l r => l.vars ++ r.vars
+  | .joinL l r => l.vars ++ r.vars
+  | .joinR r => r.vars
+  | .and l r => l.vars ++ r.vars
+  | .or l r => l.vars ++ r.vars
+  | .cond a _ b t e => a.vars ++ b.vars ++ t.vars ++ e.vars
+  | .assert a _ b m => a.vars ++ b.vars ++ m.vars
+  | .group e => e.vars
+def Exprs.vars : Exprs → List String
+  | .nil => []
+  | .cons e es => e.vars ++ es.vars
+end
+
 inductive Feature where
   | logical | which | script | scriptInterpreter | fmt
   deriving DecidableEq, Repr, Inhabited
